@@ -100,9 +100,19 @@ macro_rules! views {
         let subr = &sdirs;
         let eyes: Vec<[f64; 3]> = { let g = [-7.5, 0.0, 3.0]; let mut v = vec![]; for x in g { for y in g { for z in g { v.push([x, y * 0.5 + 0.25, z - 1.0]); } } } v };
         let eyesr = &eyes;
-        $rep.sweep(&format!("{}/look_to,look_at/27 eyes x {ns}^2 (dir, up) pairs x 2 handedness", stringify!($S)), 27 * ns * ns * 2, |idx, acc| {
-            let d = digits(idx, [27, ns, ns, 2]);
-            let (e, dr, upv) = (eyesr[d[0]], subr[d[1]], subr[d[2]]);
+        // up hints: every direction of the set, plus four hints nearly parallel / anti-parallel to the
+        // view direction but still inside the stated domain (|dir x up| = sin of 1.5e-3, 3e-3, 1e-2, pi - 2e-3)
+        let nu = ns + 4;
+        $rep.sweep(&format!("{}/look_to,look_at/27 eyes x {ns} directions x {nu} up hints x 2 handedness", stringify!($S)), 27 * ns * nu * 2, |idx, acc| {
+            let d = digits(idx, [27, ns, nu, 2]);
+            let (e, dr) = (eyesr[d[0]], subr[d[1]]);
+            let upv: [f64; 3] = if d[2] < ns as usize { subr[d[2]] } else {
+                let th = [1.5e-3, 3e-3, 1e-2, std::f64::consts::PI - 2e-3][d[2] - ns as usize];
+                let w = if dr[0].abs() < 0.9 { [1.0, 0.0, 0.0] } else { [0.0, 1.0, 0.0] };
+                let p = normalize(&cross(&dr, &w));
+                let (sn, cs) = th.sin_cos();
+                [dr[0] * cs + p[0] * sn, dr[1] * cs + p[1] * sn, dr[2] * cs + p[2] * sn]
+            };
             let rh = d[3] == 0;
             let eye = <$V3>::new(e[0] as $S, e[1] as $S, e[2] as $S);
             let dir = <$V3>::new(dr[0] as $S, dr[1] as $S, dr[2] as $S);
